@@ -1062,6 +1062,26 @@ def client_ctor(srv):
     return f"({lean_str(st.group(1))}, {int(f['in_flight_response_count'])})"
 
 
+def setter_is_assignment(src, ty, fn, field):
+    """1 if the body of `fn` is exactly `self.<field> = <its parameter>;`"""
+    params, body = fn_params(src, ty, fn), fn_body(src, ty, fn)
+    if not params or len(params) != 1 or body is None:
+        return None
+    return 1 if re.fullmatch(r"\{\s*self\." + field + r"\s*=\s*" + re.escape(params[0]) + r"\s*;\s*\}", body.strip()) else None
+
+
+def accept_configures_limit(srv):
+    """1 if `handle_new_connection` builds the connection as `HttpConnection::new(stream)` followed by
+    `set_payload_max_size(self.payload_max_size)` and files `ClientConnection::new(<that connection>)`"""
+    body = fn_body(srv, "HttpServer", "handle_new_connection")
+    if body is None:
+        return None
+    m = re.search(r"let\s+mut\s+(\w+)\s*=\s*HttpConnection::new\(\s*\w+\s*\)\s*;\s*\1\.set_payload_max_size\(\s*self\.payload_max_size\s*\)\s*;", body)
+    if not m:
+        return None
+    return 1 if re.search(r"ClientConnection::new\(\s*" + m.group(1) + r"\s*\)", body) else None
+
+
 def interior_mutability(srcs):
     """types with interior mutability mentioned anywhere in the non-test source: the model takes every `&self` method
     (write_all, the getters, handle_http_request, …) to be a function of the value it is called on"""
@@ -1104,6 +1124,9 @@ def main():
     nat("CAPACITY_TEST_IS_EQ", 1 if re.search(r"connections\.len\(\)\s*==\s*MAX_CONNECTIONS", srv) else None)
     items.append(("connNew", "String × Nat × Bool × Nat × Bool × Bool × Bool × Bool × Bool × Nat", conn_ctor(conn, srv)))
     items.append(("clientNew", "String × Nat", client_ctor(srv)))
+    nat("SERVER_SET_LIMIT_IS_ASSIGNMENT", setter_is_assignment(srv, "HttpServer", "set_payload_max_size", "payload_max_size"))
+    nat("CONN_SET_LIMIT_IS_ASSIGNMENT", setter_is_assignment(conn, "HttpConnection<T>", "set_payload_max_size", "payload_max_size"))
+    nat("ACCEPT_CONFIGURES_LIMIT", accept_configures_limit(srv))
     items.append(("serverNew", "Nat × Bool × Bool", server_ctor(srv, "new")))
     items.append(("serverNewFromFd", "Nat × Bool × Bool", server_ctor(srv, "new_from_fd")))
     byts("SERVER_FULL_ERROR_MESSAGE", const_bytes(srv, "SERVER_FULL_ERROR_MESSAGE"))
